@@ -331,7 +331,9 @@ class EngineC11:
             return finish(v)
         it0 = base["clock"].n_reads - 2
         ev: List[Any] = [i, op, it0, arr_digest(np.asarray(base["M"].weights))]
-        res.states.add(hash((alg, it0, op)) & 0xFFFFFFFF)
+        from .kernel import H
+
+        res.states.add(H(alg, len(init["shape"]), init["sparse"], init["rank"], init["guess"] is None, it0, op, step.get("j"), step.get("kind"), init["opts"].get("precompinds"), init["opts"].get("inexact")) & 0xFFFFFFFF)
         if op == "baseline":
             if it0 < maxiters:
                 res.bump("probe:converged_before_maxiters")
